@@ -153,7 +153,7 @@ Lemma seg_return_value : forall st h LH (E : cert -> Prop), code_inv st -> 1 <= 
   seg st (emit_opcode OReturnValue st) true LH h E [(code_len st, 1, true, h)].
 Proof.
   intros st h LH E I Hh.
-  apply (seg_emit st _ [byte_of_opcode OReturnValue]); [apply app_emit_opcode|reflexivity|exact I|auto|].
+  apply (seg_emit st _ [byte_of_opcode OReturnValue]); [apply app_emit_opcode|apply ibytes_1; reflexivity|exact I|auto|].
   intros F K G HB LF KL HE LO. apply iok_return_value; assumption.
 Qed.
 
@@ -161,7 +161,7 @@ Lemma seg_return : forall st h LH (E : cert -> Prop), code_inv st ->
   seg st (emit_opcode OReturn st) true LH h E [(code_len st, 1, true, h)].
 Proof.
   intros st h LH E I.
-  apply (seg_emit st _ [byte_of_opcode OReturn]); [apply app_emit_opcode|reflexivity|exact I|auto|].
+  apply (seg_emit st _ [byte_of_opcode OReturn]); [apply app_emit_opcode|apply ibytes_1; reflexivity|exact I|auto|].
   intros F K G HB LF KL HE LO. apply iok_return; assumption.
 Qed.
 
@@ -224,7 +224,7 @@ Proof.
   exists ([(code_len st, 1, m, h)] ++ [(code_len st1, 3, m, h + 1)]).
   eapply sspec_plain with (op := OJump); [|reflexivity|discriminate|discriminate].
   eapply seg_app1; [exact S1| |exact F2|zl3|lia].
-  apply (seg_emit st1 _ _ m LH (h + 1) _ A); [zl3|exact (fr_inv _ _ _ F1)|auto|].
+  apply (seg_emit st1 _ _ m LH (h + 1) _ A); [apply ibytes_3; reflexivity|exact (fr_inv _ _ _ F1)|auto|].
   intros F K G HB LF KL HE LO.
   assert (SO : succ_ok G m (l_start ctx) (LH + 1) = true).
   { apply (LO (l_start ctx) (map l_start rest)). apply rev_map_starts. exact ER. }
@@ -273,14 +273,16 @@ Proof.
       apply (ent_ok_bytes F K G st' [byte_of_opcode ONull]).
       * intros k Hk. cbn [length] in Hk. assert (k = 0%nat) by lia. subst k. exact (By 0%nat ltac:(lia)).
       * intros X. apply Bk in X. destruct X as [X|X]; [specialize (Old _ X); lia|lia].
+      * apply ibytes_1; reflexivity.
       * intros HB LF. eapply iok_simple with (op := ONull); [reflexivity|exact HB|exact LF|exact H0|].
         rewrite <- L1. exact (GL (pos, 3, m, h + 1) (or_intror (or_introl eq_refl))).
     + (* the jump, pending *)
       intros A1 A2 A3 A4. cbn [e_pc e_w e_m e_h fst snd] in *.
       destruct (A3 (proj2 (Bk pos) (or_intror eq_refl))) as (t & Ht & St).
-      eapply iok_jump_rd; [|exact Ht|exact A4|eapply succ_ok_weaken; [exact St|lia]].
-      unfold agree in A1. rewrite A1. replace pos with (code_len st + Z.of_nat 1) by lia.
-      exact (By 1%nat ltac:(lia)).
+      assert (BJ : fbyte F pos = Some (byte_of_opcode OJump)).
+      { unfold agree in A1. rewrite A1. replace pos with (code_len st + Z.of_nat 1) by lia. exact (By 1%nat ltac:(lia)). }
+      split; [eapply iok_jump_rd; [exact BJ|exact Ht|exact A4|eapply succ_ok_weaken; [exact St|lia]]|].
+      unfold instr_width. rewrite BJ. reflexivity.
 Qed.
 
 (** * 3. Statement lists and blocks *)
